@@ -592,9 +592,15 @@ def rule_model_guards(F, ev, R, config, rule="R-MODEL-GUARDS"):
             env = Env(b)
             g = Guards(ev, b, env)
             me = ("param", b.key, 1)
-            allocs = [(bi, t) for bi, t in b.calls() if "fn" in t and t["fn"].get("krate") == "nalgebra" and t["fn"]["name"] in ("uninit", "from_element", "zeros", "zeros_generic", "from_element_generic")]
-            for bi, t in allocs:
-                rels, raw = g.relations_at(bi)
+            is_alloc = lambda t: "fn" in t and t["fn"].get("krate") == "nalgebra" and t["fn"]["name"] in ("uninit", "from_element", "zeros", "zeros_generic", "from_element_generic")
+            # the result matrix may be allocated in the method or in a private helper it calls (judged in this calling context)
+            allocs = [(env, bi, t) for bi, t in b.calls() if is_alloc(t)]
+            for hk, envs in helper_contexts(F, ev).items():
+                for henv in envs:
+                    if context_root(F, henv).key == b.key:
+                        allocs.extend((henv, bi, t) for bi, t in henv.body.calls() if is_alloc(t))
+            for aenv, bi, t in allocs:
+                rels, raw = context_relations(ev, aenv, bi)
                 okc = False
                 for r in rels:
                     if r[0] == "Eq":
